@@ -139,6 +139,7 @@ func oneRun(c *hx.Ctx, k int, r *rand.Rand, proto string, nclients int, stopDuri
 	}
 	var wg sync.WaitGroup
 	stopped := make(chan struct{})
+	stopReturned := make(chan struct{})
 	for i := 0; i < nclients; i++ {
 		wg.Add(1)
 		go func(cl *clientLog, seed uint64) {
@@ -229,10 +230,27 @@ func oneRun(c *hx.Ctx, k int, r *rand.Rand, proto string, nclients int, stopDuri
 				m := dataMsg(id, 1)
 				conn.Write(refipfix.BuildMessage(id, 0, 1, 2, refipfix.EncodeTemplateRecord(700, gen.Fields(elems))))
 				conn.Write(m[:16+cut%(len(m)-16)])
-				<-stopped
-				time.Sleep(2 * time.Millisecond)
+				<-stopReturned // the connection is held open until Stop has returned (or was given up)
 			}(uint32(c.Batch)<<24|0xF00000|uint32(k&0xfff)<<4|uint32(i), r.IntN(1000))
 			c.Add("clients_stuck_mid_message_at_stop", 1)
+		}
+		// ... and over tls, a few peers that have connected but sit in the middle of the handshake (a few bytes of
+		// the first record written, nothing more): "Stop returns promptly even with clients connected"
+		if proto == "tls" {
+			for i := 0; i < r.IntN(3); i++ {
+				wg.Add(1)
+				go func(nbytes int) {
+					defer wg.Done()
+					conn, err := net.Dial("tcp", addr)
+					if err != nil {
+						return
+					}
+					defer conn.Close()
+					conn.Write([]byte{0x16, 0x03, 0x01, 0x02, 0x00, 0x01}[:nbytes])
+					<-stopReturned
+				}(r.IntN(7))
+				c.Add("clients_stuck_in_the_tls_handshake_at_stop", 1)
+			}
 		}
 	}
 	var stopDur time.Duration
@@ -243,6 +261,7 @@ func oneRun(c *hx.Ctx, k int, r *rand.Rand, proto string, nclients int, stopDuri
 		stopCalledEarly = true
 		close(stopped)
 		stopDur, stopOK = coll.Stop(30 * time.Second)
+		close(stopReturned)
 		wg.Wait()
 	} else {
 		wg.Wait()
